@@ -131,9 +131,14 @@ pub fn soup(args: &[String]) -> i32 {
         idxs = vec![0usize; len];
         loop {
             let body: Vec<&str> = idxs.iter().map(|i| alpha[*i]).collect();
+            // separators: one blank, or line breaks of the three styles mixed inside one text (rotating start)
+            const BREAKS: [&str; 3] = ["\n", "\r\n", "\r"];
+            let mut mixed = String::new();
+            for (k, t) in body.iter().enumerate() { mixed.push_str(BREAKS[(n / 16 + k) % 3]); mixed.push_str(t); }
+            mixed.push_str(BREAKS[(n / 16 + body.len()) % 3]);
             let body = body.join(" ");
-            for (pre, post) in CONTEXTS.iter() {
-                let text = format!("{}{}{}", pre, body, post);
+            for (pre, post, b) in CONTEXTS.iter().flat_map(|(pre, post)| [(pre, post, &body), (pre, post, &mixed)]) {
+                let text = format!("{}{}{}", pre, b, post);
                 let v = parse_one(&text, false);
                 n += 1;
                 let key = if let Some(p) = v.get("panic") { Some(format!("panic: {}", p.as_str().unwrap_or("").chars().take(120).collect::<String>())) }
